@@ -24,6 +24,16 @@ RULE = ("checksum/serialise: payload lengths 0..1500 and 65535, random and 0xFF/
         "distinct = distinct input line")
 
 
+def ref_checksum(bs):
+    """RFC 1071 read directly: one's-complement sum of big-endian 16-bit words (odd tail padded), complemented."""
+    tot = 0
+    for i in range(0, len(bs), 2):
+        tot += (bs[i] << 8) | (bs[i + 1] if i + 1 < len(bs) else 0)
+    while tot >> 16:
+        tot = (tot & 0xFFFF) + (tot >> 16)
+    return (~tot) & 0xFFFF
+
+
 def checksum_cases(rng, thorough):
     out = []
     sizes = [0, 1, 2, 3, 4, 7, 8, 9, 63, 64, 100, 511, 1400, 1471, 1472, 1500]
@@ -39,10 +49,12 @@ def checksum_cases(rng, thorough):
                 bs = [0xFF] * sz
             else:
                 bs = [rng.choice([0, 0, 1, 0xFF]) for _ in range(sz)]
-            out.append(Case(line("c11_checksum", [bs]), line("c11_checksum", [bs]), kind="checksum", nontrivial=sz > 1))
+            out.append(Case(line("c11_checksum", [bs]), line("c11_checksum", [bs]), kind="checksum", nontrivial=sz > 1,
+                            meta={"sum": ref_checksum(bs)}))
     for sz in ([65535, 65534] if thorough else [65535]):
         bs = [0xFF] * sz
-        out.append(Case(line("c11_checksum", [bs]), line("c11_checksum", [bs]), kind="checksum-max", nontrivial=True))
+        out.append(Case(line("c11_checksum", [bs]), line("c11_checksum", [bs]), kind="checksum-max", nontrivial=True,
+                        meta={"sum": ref_checksum(bs)}))
     return out
 
 
@@ -237,7 +249,9 @@ def eq_cases(rng, thorough):
         i1, s1 = rng.below(3), rng.below(3)
         i2, s2 = (i1, s1) if rng.chance(3, 4) else (rng.below(3), rng.below(3))
         l = line("c11_echo_eq", [[i1, s1], d1, [i2, s2], d2])
-        out.append(Case(l, l, kind="echo-eq", nontrivial=True))
+        n = min(len(d1), len(d2))
+        out.append(Case(l, l, kind="echo-eq", nontrivial=True,
+                        meta={"same": int((i1, s1) == (i2, s2) and d1[:n] == d2[:n])}))
     return out
 
 
@@ -260,6 +274,16 @@ def judge(case, impl, model, spec, ctx):
         elif spec is not None and spec.strip() != "1":
             out.append(("violation", "echo request has an invalid Internet checksum (RFC 1071 verification of the "
                                      "serialised message fails)"))
+    if k.startswith("checksum") and impl != "0,%d" % case.meta["sum"]:
+        out.append(("violation", "checksum differs from the RFC 1071 one's-complement sum computed directly"))
+    if k == "echo-eq":
+        eq, found = untok(impl.split()[0])
+        if eq != case.meta["same"]:
+            out.append(("violation", "reply-waiter keys compare %d where identifier, sequence number and the common prefix of "
+                                     "the data say %d" % (eq, case.meta["same"])))
+        elif found != eq:
+            out.append(("violation", "a waiter stored under an equal key (same identifier and sequence number, data a prefix) "
+                                     "is not found in the reply-waiter table: the answer to that request would be dropped"))
     if k == "requests":
         flat = " ".join(t for t in impl.split() if not (t.isdigit() and 1000 <= int(t) < 2000))
         if flat != case.meta["spec"]:
@@ -327,6 +351,11 @@ def live_cases(rng, thorough):
     # same identifier and sequence, different (random) data: matched by the data
     mk([[T, 8, 2], [1, 0, 300, 1, 64], SILENT, d0, [1, 1, 300, 1, 64], SILENT, d1, [5, 300, 1], d1, [5, 300, 1], d0,
         [2, 0, 150], [2, 1, 150], [3]], "live:same-ids-different-data")
+    # a reply that carries only the beginning of the request's data (hosts that truncate, and what an ICMP error
+    # quotes): it still answers the pending request
+    d16 = rng.bytes(16)
+    mk([[T, 8, 1], [1, 0, 410, 2, 64], SILENT, d16, [5, 410, 2], d16[:8], [2, 0, 150], [3]], "live:truncated-reply")
+    mk([[T, 8, 1], [1, 0, 411, 2, 64], SILENT, d16, [5, 411, 2], [], [2, 0, 150], [3]], "live:reply-without-data")
     # (queue overflow is not driven live: whether the second answer finds the queue full depends on the
     #  scheduling of the listening task against the reading client; it is covered by the model theorems only)
     # KNOWN FINDING: equal identifier/sequence and empty data from two clients
